@@ -7,3 +7,4 @@ open LasModel.Props.C05
 #print axioms C05_seek
 #print axioms C05_bound
 #print axioms C05_bytes
+#print axioms readPoints_generated
